@@ -33,11 +33,25 @@ Readings (the weaker one is used where two exist):
   (not after every insert/delete).
 * "an unhandled key comes back unchanged": the result is ``None`` or ``== key``; it must be ``== key``
   when no probe handled it and the key is not bound to a cursor-movement command (the only commands
-  the six containers consume).
+  the six containers consume) - bound according to the harness's model of the command maps, see below.
 * keys are only sent while the top widget is selectable (``MainLoop.process_input`` does the same).
 * set_focus_path on a path that can no longer be walked must raise IndexError (docstring); nothing
   is asserted about what it changed before failing.  ``focus_position = bad`` must change nothing.
-* mouse presses are part of the history only; no clause is asserted about where they move the focus.
+* mouse presses are part of the history only; no clause is asserted about where they move the focus or which
+  widget a press reaches (which cell belongs to which child is hit-testing, C09's subject).  "button-1 presses at
+  any cell" is taken literally, though: besides presses at random fractions of the canvas the campaign presses
+  every single cell of small two-level nests (sweep 5), so that the cells on and next to every child's border occur.
+* "navigation keys" are what the command map says they are.  ``Widget._command_map`` is documented as "a shared
+  CommandMap instance. May be redefined in subclasses or widget instances", so a history may also edit the shared
+  ``urwid.command_map`` (bind, unbind, clear_command, restore_defaults), give a container a map of its own
+  (``CommandMap()``, ``some_map.copy()``, or a map another container already uses) and edit that, or edit a map that
+  belongs to no widget of the tree.  The harness keeps a model of every map (a plain dict per map object, started
+  from the defaults table in CommandMap's docstring, edited with the same edits) and reads a key's command from the
+  model, never from urwid.  "An unhandled key comes back unchanged" then reads: the key must come back when no probe
+  handled it and NO map consulted on the focus path (the maps of the containers on it; the shared map as well when a
+  GridFlow is on it, whose display widgets are urwid's own) binds it to a cursor-movement command.  "Arrow keys" =
+  keys bound to cursor up/down/left/right in one of those maps (and to page / max commands in none).  Nothing is
+  asserted about a bound key having to move anything.
 * "selectable and unselectable leaves": a leaf is whatever sits below the six container classes - a probe, a
   probe that also has the optional cursor methods (get_cursor_coords / move_cursor_to_coords / get_pref_col, as
   Edit has), or either of them inside the decoration widgets applications wrap leaves in (Padding, AttrMap,
@@ -104,7 +118,23 @@ RULE = (
     "in 3 / 2 rows, GridFlow whose cells wrap, ListBox over both walkers with more rows than fit, 2..5 (thorough "
     "2..6) children, built with focus f0; history = focus := f1, character, focus := f2, character for every "
     "(f0, f1, f2), written by focus_position or by set_focus_path; or k = 1..n-1 equal arrow keys along the axis, "
-    "then a character; non-trivial: the focus moves."
+    "then a character; non-trivial: the focus moves. "
+    "Key bindings: ops that give a container a command map of its own (CommandMap(), a copy of an existing map, a map "
+    "another container already uses, back to the shared one) or create a map no widget of the tree uses, and edit any "
+    "of the maps incl. the shared urwid.command_map (map[key] = command as Command member or plain string, del "
+    "map[key], clear_command, restore_defaults); the command of a key is read from the harness's model of the maps "
+    "(documented defaults + the same edits), never from urwid. "
+    "Sweep 4 (bindings): Pile / Columns / GridFlow / ListBox of 3 selectable leaves, alone or inside a Pile, x second "
+    "map made by CommandMap() or copy() and used by the outer container, the inner one or nobody x edit (an unbound "
+    "character bound to each arrow command, as member and as string; each arrow key unbound; clear_command of each "
+    "arrow command) addressed to the shared or the second map, before or after the second map is made x "
+    "{nothing, restore_defaults on the edited map, on the other one}, then the character, both arrow keys of the "
+    "container's axis, the character. "
+    "Sweep 5 (every cell): every two-level nest outer x inner over Overlay (3 aligns x 3 valigns x given / relative "
+    "size), Frame (inner as body with every header/footer combination, as header, as footer), box Pile, box Columns, "
+    "ListBox x inner Pile, Columns, GridFlow, ListBox, Overlay, Frame with and without header / footer: a button-1 "
+    "press at each cell of a 9x6 (thorough 11x7) canvas, then a character. The random op lists also press cells "
+    "given absolutely (modulo the canvas size)."
 )
 ASSUMPTIONS = [
     "probe widgets are correct urwid leaf widgets (Widget subclasses with render/rows/keypress/mouse_event)",
@@ -112,7 +142,13 @@ ASSUMPTIONS = [
     "a ListBox that was never rendered still holds its documented 'first selectable' deferral "
     "(private attribute set_focus_pending is read only to widen the allowed receiver set of a keypress)",
     "weights are 1..3, given sizes >= 1 (zero weights / zero sizes: the statement is silent)",
-    "only the default command_map is used",
+    "the defaults table in the CommandMap docstring ('up': 'cursor up', ... 'home': 'cursor max left', ' ' and 'enter': "
+    "'activate', 'tab': 'next selectable'; characters unbound) is what CommandMap() and restore_defaults() give; the "
+    "model of a map is a plain dict edited like the map, copies are independent dicts",
+    "the shared urwid.command_map is put back (through its mapping API) to what it held when the check was imported "
+    "before and after every case, so that cases stay independent",
+    "probes and their decorations (Padding, AttrMap, Filler, BoxAdapter) consult no command map; a GridFlow's display "
+    "widgets consult the shared one",
     "Python's own list semantics for slices (the model is a plain list edited with the same slice object) are the "
     "reference for which children an edit removes / replaces; which child gets the focus afterwards is not asserted, "
     "only that it is a valid one",
@@ -132,6 +168,49 @@ CHAR_KEYS = ["x", "q", "enter", " "]
 ALL_KEYS = NAV_KEYS + CHAR_KEYS
 ARROWS = {Command.UP, Command.DOWN, Command.LEFT, Command.RIGHT}
 CONTAINER_COMMANDS = ARROWS | {Command.PAGE_UP, Command.PAGE_DOWN, Command.MAX_LEFT, Command.MAX_RIGHT}
+# the documented default bindings (CommandMap docstring) of the keys this check sends; "x" and "q" are unbound
+DEFAULT_BINDINGS = {
+    "up": Command.UP,
+    "down": Command.DOWN,
+    "left": Command.LEFT,
+    "right": Command.RIGHT,
+    "page up": Command.PAGE_UP,
+    "page down": Command.PAGE_DOWN,
+    "home": Command.MAX_LEFT,
+    "end": Command.MAX_RIGHT,
+    "tab": Command.SELECT_NEXT,
+    "enter": Command.ACTIVATE,
+    " ": Command.ACTIVATE,
+}
+# commands a history may bind a key to: the four arrows first, then the other cursor movements, then two commands
+# no container consumes
+BINDABLE = [
+    Command.UP,
+    Command.DOWN,
+    Command.LEFT,
+    Command.RIGHT,
+    Command.PAGE_UP,
+    Command.PAGE_DOWN,
+    Command.MAX_LEFT,
+    Command.MAX_RIGHT,
+    Command.ACTIVATE,
+    Command.SELECT_NEXT,
+]
+MAX_MAPS = 4
+# what the shared map held when this process imported the check (nothing has touched it yet): used only to put
+# it back between cases, never as an oracle
+_SHARED_AT_IMPORT = dict(urwid.command_map.items())
+
+
+def reset_shared_map():
+    cm = urwid.command_map
+    for k in [k for k in cm if k not in _SHARED_AT_IMPORT]:
+        del cm[k]
+    for k, v in _SHARED_AT_IMPORT.items():
+        if cm[k] is not v:
+            cm[k] = v
+
+
 GLYPHS = "ABCDEFGHIJKLMNOPQRSTUVWXYZabcdefghijklmnopqrstuvwxyz0123456789"
 LISTK = ("pile", "cols", "grid", "lb")
 from urwid.widget.widget import WidgetWarning  # noqa: E402
@@ -249,7 +328,7 @@ def make_leaf(ls, mode, log):
 
 
 class Node:
-    __slots__ = ("kind", "mode", "w", "kids", "slot", "pid", "extra")
+    __slots__ = ("kind", "mode", "w", "kids", "slot", "pid", "extra", "cmap")
 
     def __init__(self, kind, mode, w, kids=None, pid=None, extra=None):
         self.kind = kind  # p pile cols grid frame over lb
@@ -259,6 +338,7 @@ class Node:
         self.slot = None  # option kind in the parent: w g k (pile/cols)
         self.pid = pid
         self.extra = extra  # leaf: its normalised spec; overlay: the constructor keywords (for building a twin)
+        self.cmap = None  # index (into Harness.maps) of the command map this container was given; None: the shared one
 
     def children(self):
         if self.kind == "p":
@@ -333,6 +413,9 @@ class Harness:
         self.wlist = []
         self.root = None
         self.drawn_focus = None  # probes drawn with focus=True by the last complete render of the real tree
+        # command maps of this history: [0] is the shared one; model: key -> Command for the keys in ALL_KEYS
+        self.maps = [urwid.command_map]
+        self.mmodel = [dict(DEFAULT_BINDINGS)]
 
     # ---- building -------------------------------------------------------------------------
     def new_probe(self, spec, mode):
@@ -630,6 +713,8 @@ class Harness:
         else:
             bottom, top = (self.twin_of(k, tlog, tmap) for k in n.kids)
             t = urwid.Overlay(top, bottom, **n.extra)
+        if n.kind != "p" and n.cmap:
+            t._command_map = self.maps[n.cmap]  # bindings are configuration, not history: the twin uses the same map
         tmap[id(n)] = t
         return t
 
@@ -874,6 +959,7 @@ class Harness:
             return
         positions, path = self.focus_walk()
         allowed = {n.pid for n in path if n.kind == "p"} | self._lb_pending(path)
+        play = self.commands_in_play(key, path)
         before = [(n, n.w.focus) for n in self.containers() if n.kind in ("pile", "cols", "grid")]
         twin = self.twin_observe(key, positions, path) if self.drawn_focus is not None else None
         del self.log[:]
@@ -911,15 +997,15 @@ class Harness:
         handled = any(e[3] for e in klog)
         if r is not None and r != key:
             self.report(Violation("unhandled-key-unchanged", f"key {key!r} came back as {r!r}"))
-        cmd = urwid.command_map[key]
-        if r is None and not handled and cmd not in CONTAINER_COMMANDS:
+        if r is None and not handled and not (play & CONTAINER_COMMANDS):
             self.report(
                 Violation(
                     "unhandled-key-unchanged",
-                    f"key {key!r} (command {cmd!r}) was handled by no probe but keypress returned None",
+                    f"key {key!r} (bound to {sorted(str(c) for c in play)} in the command maps of the containers on the "
+                    f"focus path {positions!r}) was handled by no probe but keypress returned None",
                 )
             )
-        if cmd in ARROWS:
+        if (play & ARROWS) and not (play & (CONTAINER_COMMANDS - ARROWS)):
             for n, old in before:
                 new = n.w.focus
                 if new is not old and new is not None and not new.selectable() and any(
@@ -935,14 +1021,111 @@ class Harness:
                     )
         self.count("key:handled" if handled else ("key:consumed" if r is None else "key:returned"))
 
+    def commands_in_play(self, key, path):
+        """What ``key`` is bound to (a Command or None), according to the model, in each command map that can be
+        consulted while the key travels along the focus path: the map of every container on the path and, when a
+        GridFlow is on it, the shared map its display widgets use; below a never-drawn ListBox (see _lb_pending)
+        every container counts."""
+        nodes = []
+        for n in path:
+            if n.kind == "p":
+                continue
+            nodes.append(n)
+            if n.kind == "lb" and getattr(n.w, "set_focus_pending", None) == "first selectable":
+                stack = list(n.children())
+                while stack:
+                    m = stack.pop()
+                    if m.kind != "p":
+                        nodes.append(m)
+                        stack.extend(m.children())
+        play = set()
+        for n in nodes:
+            play.add(self.mmodel[n.cmap or 0].get(key))
+            if n.kind == "grid":
+                play.add(self.mmodel[0].get(key))
+        return play
+
+    def press(self, col, row):
+        del self.log[:]
+        self.guarded(lambda: self.root.w.mouse_event(self.size(), "mouse press", 1, col, row, True), "mouse_event")
+
     def op_click(self, op):
+        """["click", x, y]: button-1 press at a cell given as hundredths of the canvas drawn last"""
         rows = getattr(self, "canvas_rows", self.rows)
         if rows <= 0:
             return
-        col = int(op[1]) % 100 * self.cols // 100
-        row = int(op[2]) % 100 * rows // 100
-        del self.log[:]
-        self.guarded(lambda: self.root.w.mouse_event(self.size(), "mouse press", 1, col, row, True), "mouse_event")
+        self.press(int(op[1]) % 100 * self.cols // 100, int(op[2]) % 100 * rows // 100)
+
+    def op_press(self, op):
+        """["press", col, row]: button-1 press at that very cell (modulo the size of the canvas drawn last)"""
+        rows = getattr(self, "canvas_rows", self.rows)
+        if rows <= 0:
+            return
+        self.press(int(op[1]) % self.cols, int(op[2]) % rows)
+        self.count("press:cell")
+
+    # key bindings ---------------------------------------------------------------------------
+    def op_cmap(self, op):
+        """["cmap", how, container | None, source]: a second (third ...) command map comes into being and / or a
+        container is told to use one.  how 0: ``CommandMap()``; 1: ``maps[source].copy()``; 2: the existing map
+        ``maps[source]`` itself (then used by two containers); 3: the shared map again.  container None: the map is
+        used by no widget of the tree (it belongs to some other part of the application)."""
+        how = int(op[1]) % 4
+        target = None if op[2] is None else self.pick(self.containers(), op[2])
+        src = int(op[3]) % len(self.maps)
+        if how >= 2:
+            if target is None:
+                return
+            ix = src if how == 2 else 0
+        else:
+            if len(self.maps) >= MAX_MAPS:
+                self.count("cmap:skipped-enough-maps")
+                return
+            if how == 0:
+                self.maps.append(urwid.CommandMap())
+                self.mmodel.append(dict(DEFAULT_BINDINGS))
+            else:
+                self.maps.append(self.maps[src].copy())
+                self.mmodel.append(dict(self.mmodel[src]))
+            ix = len(self.maps) - 1
+        if target is not None:
+            target.w._command_map = self.maps[ix]  # "May be redefined in subclasses or widget instances"
+            target.cmap = ix or None
+        self.count(f"cmap:{('new', 'copy', 'same-object', 'shared-again')[how]}:{'unused' if target is None else target.kind}")
+
+    def op_bind(self, op):
+        """["bind", map, variant, key, command, spelled]: variant 0 ``map[key] = command`` (spelled 0: the Command
+        member, 1: its plain string, both documented value types); 1 ``del map[key]`` (a bound key only);
+        2 ``map.clear_command(command)``"""
+        mi = int(op[1]) % len(self.maps)
+        variant = int(op[2]) % 3
+        key = op[3]
+        if key not in ALL_KEYS:
+            return
+        cmd = BINDABLE[int(op[4]) % len(BINDABLE)]
+        value = cmd.value if int(op[5]) % 2 else cmd
+        real, model = self.maps[mi], self.mmodel[mi]
+        if variant == 0:
+            real[key] = value
+            model[key] = cmd
+        elif variant == 1:
+            if key not in model:
+                self.count("bind:skipped-unbound")
+                return
+            del real[key]
+            del model[key]
+        else:
+            real.clear_command(value)
+            for k in [k for k, v in model.items() if v == cmd]:
+                del model[k]
+        self.count(f"bind:{('set', 'del', 'clear_command')[variant]}:{'shared' if mi == 0 else 'own'}")
+
+    def op_cmreset(self, op):
+        """["cmreset", map]: ``map.restore_defaults()``"""
+        mi = int(op[1]) % len(self.maps)
+        self.maps[mi].restore_defaults()
+        self.mmodel[mi] = dict(DEFAULT_BINDINGS)
+        self.count(f"cmreset:{'shared' if mi == 0 else 'own'}")
 
     def bad_value(self, node, k):
         """an invalid position *of the position type* (type hints: int for the list-like containers and the
@@ -1383,7 +1566,11 @@ class Harness:
 def check_ops(case):
     use_encoding("utf-8")
     urwid.CanvasCache.clear()
-    Harness(case).run()
+    reset_shared_map()
+    try:
+        Harness(case).run()
+    finally:
+        reset_shared_map()
 
 
 SUBS = {"ops": check_ops}
@@ -1529,6 +1716,17 @@ def _ops(max_ops, item_depth):
         st.tuples(st.just("resize"), st.integers(0, 34), st.integers(0, 17)),
         st.tuples(st.just("save")),
         st.tuples(st.just("restore")),
+        st.tuples(st.just("press"), st.integers(0, 40), st.integers(0, 20)),
+        st.tuples(st.just("cmap"), st.integers(0, 3), st.one_of(st.none(), ci), st.integers(0, MAX_MAPS - 1)),
+        st.tuples(
+            st.just("bind"),
+            st.integers(0, MAX_MAPS - 1),
+            st.sampled_from([0, 0, 1, 2]),
+            st.sampled_from(ALL_KEYS),
+            st.integers(0, len(BINDABLE) - 1),
+            st.integers(0, 1),
+        ),
+        st.tuples(st.just("cmreset"), st.integers(0, MAX_MAPS - 1)),
     ).map(list)
     # the length is drawn first so that long histories are as likely as short ones
     return st.integers(1, max_ops).flatmap(lambda n: st.lists(op, min_size=n, max_size=n))
@@ -1785,6 +1983,115 @@ def _overfull_classify(case):
     return [f"overfull:{case['tree']['k']}:{case['mode']}:n={len(case['tree']['c'])}", f"overfull:by:{how}"]
 
 
+# ---- sweep 4: key bindings ------------------------------------------------------------------------------------
+
+
+def binding_sweep_cases():
+    """Every list-like container kind (3 selectable leaves that handle no key, focus on the middle one), alone or as
+    the focus child of a Pile, x a second command map made by ``CommandMap()`` or ``urwid.command_map.copy()`` and
+    used by the outer container, the inner one or no widget x one edit - the unbound character "x" bound to each of
+    the four arrow commands (as Command member and as plain string), each arrow key unbound, clear_command of each
+    arrow command - addressed to the shared map or to the second map, made before or after the second map exists
+    x {nothing, restore_defaults() on the edited map, restore_defaults() on the other map}.  Then: the character,
+    the two arrow keys of the container's axis, the character."""
+    leaf = {"k": "p", "sel": 1, "keys": [], "rows": 1}
+    edits = [["bind", 0, 0, "x", c, spelled] for c in range(4) for spelled in (0, 1)]
+    edits += [["bind", 0, 1, k, 0, 0] for k in ARROW_KEYS]
+    edits += [["bind", 0, 2, "x", c, 0] for c in range(4)]
+    for kind in ("pile", "cols", "grid", "lb-s"):
+        mode = "B" if kind.startswith("lb") else "F"
+        axis = ("left", "right") if kind in ("cols", "grid") else ("up", "down")
+        inner = _listlike_spec(kind, [dict(leaf) for _ in range(3)], 1)
+        nested = _listlike_spec("pile", [inner, dict(leaf)], 0)
+        keys = [["key", "x"], ["key", axis[1]], ["key", axis[0]], ["key", "x"]]
+        for tree, users in ((inner, (None, 0)), (nested, (None, 0, 1))):
+            for user in users:
+                for how in (0, 1):
+                    make = ["cmap", how, user, 0]
+                    for edit in edits:
+                        for first, target in (("map", 0), ("map", 1), ("edit", 0)):
+                            e = [edit[0], target, *edit[2:]]
+                            for then in (None, target, 1 - target):
+                                ops = [make, e] if first == "map" else [e, make]
+                                if then is not None:
+                                    ops = [*ops, ["cmreset", then]]
+                                yield {"tree": tree, "mode": mode, "size": [12, 6], "ops": ops + keys}
+
+
+def _binding_classify(case):
+    ops = case["ops"]
+    make = [op for op in ops if op[0] == "cmap"][0]
+    edit = [op for op in ops if op[0] == "bind"][0]
+    user = "nobody" if make[2] is None else ("root", "inner")[make[2]]
+    return [
+        f"bindings:{case['tree']['k']}:levels={_levels(case['tree'])}",
+        f"bindings:second-map:{('CommandMap()', 'copy()')[make[1]]}:used-by:{user}",
+        f"bindings:edit:{('set', 'del', 'clear_command')[edit[2]]}:on:{('shared', 'second')[edit[1]]}",
+        f"bindings:order:{ops[0][0]}-first:restore={'yes' if any(op[0] == 'cmreset' for op in ops) else 'no'}",
+    ]
+
+
+# ---- sweep 5: a button-1 press at every cell ------------------------------------------------------------------
+
+
+def cell_sweep_cases(cols, rows, sizes):
+    """Every two-level nest outer x inner, a button-1 press at each cell of a cols x rows canvas, then a character.
+    inner: Pile / Columns (with divider) / GridFlow / ListBox of (selectable, unselectable, selectable) leaves, an
+    Overlay, a Frame with each of the four header / footer combinations.  outer: an Overlay with inner on top for
+    every align x valign x the given (width, height) spellings; a Frame with inner as body (x the four header /
+    footer combinations), as header, as footer; a box Pile, a box Columns and a ListBox with inner between two
+    leaves.  Which sizing mode inner is built in follows from its slot (see realize)."""
+
+    def leaf(sel=1):
+        return {"k": "p", "sel": sel, "keys": ["x"], "rows": 1}
+
+    three = [leaf(1), leaf(0), leaf(1)]
+    inners = [_listlike_spec(k, [dict(x) for x in three], 0) for k in ("pile", "grid", "lb-s")]
+    cols_spec = _listlike_spec("cols", [dict(x) for x in three], 0)
+    cols_spec["div"] = 1
+    inners.append(cols_spec)
+    inners.append({"k": "over", "top": leaf(), "bot": leaf(0), "al": 1, "va": 1, "w": ["g", 2], "h": ["g", 0]})
+    for hdr in (None, leaf()):
+        for ftr in (None, leaf()):
+            inners.append({"k": "frame", "body": leaf(), "hdr": hdr, "ftr": ftr, "fp": "body"})
+    outers = []
+    for inner in inners:
+        for al in range(3):
+            for va in range(3):
+                for w, h in sizes:
+                    outers.append({"k": "over", "top": inner, "bot": leaf(0), "al": al, "va": va, "w": list(w), "h": list(h)})
+        for hdr in (None, leaf()):
+            for ftr in (None, leaf()):
+                outers.append({"k": "frame", "body": inner, "hdr": hdr, "ftr": ftr, "fp": "body"})
+        outers.append({"k": "frame", "body": leaf(), "hdr": inner, "ftr": leaf(), "fp": "header"})
+        outers.append({"k": "frame", "body": leaf(), "hdr": leaf(), "ftr": inner, "fp": "footer"})
+        for kind in ("pile", "cols", "lb-s"):
+            outers.append(_listlike_spec(kind, [leaf(), inner, leaf()], 1))
+    for tree in outers:
+        for row in range(rows):
+            for col in range(cols):
+                yield {"tree": tree, "mode": "B", "size": [cols, rows], "ops": [["press", col, row], ["key", "x"]]}
+
+
+def _cell_inner(tree):
+    for key in ("top", "body", "hdr", "ftr"):
+        if isinstance(tree.get(key), dict) and tree[key].get("k", "p") != "p":
+            return tree[key]
+    return [it["n"] for it in tree["c"] if it["n"].get("k", "p") != "p"][0]
+
+
+def _cell_classify(case):
+    tree = case["tree"]
+    inner = _cell_inner(tree)
+    slot = ""
+    if tree["k"] == "frame":
+        slot = ":" + [k for k in ("body", "hdr", "ftr") if tree.get(k) is inner][0]
+    col, row = case["ops"][0][1:3]
+    cols, rows = case["size"]
+    edge = col in (0, cols - 1) or row in (0, rows - 1)
+    return [f"cell:{tree['k']}{slot}>{inner['k']}", f"cell:{'canvas-edge' if edge else 'inside'}"]
+
+
 def shard(ctx):
     depth = ctx.scale(3, 4)
     max_ops = ctx.scale(30, 60)
@@ -1812,6 +2119,29 @@ def shard(ctx):
         nontrivial=_overfull_nontrivial,
         classify=_overfull_classify,
         exhaustive_name="every pair of focus changes x list-like container too small for its <= %d children" % ctx.scale(5, 6),
+    )
+    if ctx.failure is not None:
+        return
+    ctx.sweep(
+        "ops",
+        binding_sweep_cases(),
+        nontrivial=lambda case: True,  # every case has two command maps and an edit that changes one of them
+        classify=_binding_classify,
+        exhaustive_name="every origin and user of a second command map x every arrow binding edit x edited map x order x restore_defaults",
+    )
+    if ctx.failure is not None:
+        return
+    cols, rows = ctx.scale((9, 6), (11, 7))
+    sizes = ctx.scale(
+        ((["g", 4], ["g", 2]), (["r", 30], ["r", 30])),
+        ((["g", 4], ["g", 2]), (["r", 30], ["r", 30]), (["g", 2], ["r", 10]), (["r", 60], ["g", 0])),
+    )
+    ctx.sweep(
+        "ops",
+        cell_sweep_cases(cols, rows, sizes),
+        nontrivial=lambda case: True,  # every tree has two container levels and the press is followed by a key
+        classify=_cell_classify,
+        exhaustive_name="button-1 press at every cell of a %dx%d canvas x every two-level nest of the container kinds" % (cols, rows),
     )
     if ctx.failure is not None:
         return
